@@ -89,7 +89,7 @@ func scenarioC09x(c *hlib.RunCtx) *hlib.Violation {
 	w.strict = true
 	// the machine's local zone: what time.Now() carries
 	if z := t.Biased(4, 2, 3); z > 0 {
-		s.Zone = []*time.Location{nil, time.FixedZone("UTC-8", -8*3600), time.FixedZone("UTC+14", 14*3600), time.FixedZone("UTC-11:30", -(11*3600 + 1800))}[z]
+		s.SetZone([]*time.Location{nil, time.FixedZone("UTC-8", -8*3600), time.FixedZone("UTC+14", 14*3600), time.FixedZone("UTC-11:30", -(11*3600 + 1800))}[z])
 		s.Probe("machine-in-local-zone")
 	}
 
